@@ -18,7 +18,7 @@ EXPLANATION = (
     "the MaxTime test and reports; (R4, thorough) DefaultSolver<f64>: Send and stream targets must be Send+Sync "
     "(compile-fail witness); (R5) P is normalised to its upper triangle and cones are collapsed before any other "
     "use; (R6) every solve re-initialises: info.reset and default_start precede the loop, each arm writes all of "
-    "x,s,z,tau,kappa, and set_identity_scaling wholly rewrites every scaling field the KKT update reads.")
+    "x,s,z,tau,kappa, and set_identity_scaling wholly rewrites every scaling field the KKT update reads; (R7) the units premises: every stage keeps the data in the coordinates the equilibration records.")
 ASSUMPTIONS = [
     'rustc MIR construction and trait resolution are correct',
     'IndexSet/IndexMap iterate in insertion order; Vec/slice iteration is ordered',
